@@ -266,6 +266,21 @@ _dbus_pending_call_queue_timeout_error_unlocked (DBusPendingCall *pending,
 }
 
 /**
+ * Checks whether the pre-allocated timeout error of this call is still
+ * unused (it is consumed when the error is queued).
+ *
+ * @param pending the pending_call
+ * @returns #TRUE if the timeout error has not been queued yet
+ */
+dbus_bool_t
+_dbus_pending_call_has_timeout_error_unlocked (DBusPendingCall *pending)
+{
+  _dbus_assert (pending != NULL);
+
+  return pending->timeout_link != NULL;
+}
+
+/**
  * Checks to see if a timeout has been added
  *
  * @param pending the pending_call
